@@ -176,12 +176,11 @@ def check(ctx, run):
             resm = [r2 for r2 in interp.explore(iv, [], kw, self_obj=probe, max_paths=50) if not r2["raises"]]
         except Unsupported as ex:
             raise AnalysisError(f"{cq}.implied_volatility: {ex}")
-        fcalls = [e for r2 in resm for e in r2["events"] if e["kind"] == "call" and e["callee"].endswith("find_implied_volatility") and e["fn"].endswith(".implied_volatility")]
+        fcalls = [e for r2 in resm for e in r2["events"] if e["kind"] == "call" and e["callee"].endswith("find_implied_volatility")]  # from the method or a helper it delegates to
         ok = bool(fcalls)
         for e in fcalls:
-            kwf = dict(e["kwargs"])
-            for k_, v_ in zip(("pricer", "price"), e["args"]):
-                kwf[k_] = v_
+            kwf = dict(e.get("bound") or e["kwargs"])
+            kwf = {k_: v_ for k_, v_ in kwf.items() if not (v_ is None and k_ not in names)}
             pricer = kwf.pop("pricer", None)
             ok = ok and isinstance(pricer, BoundMethod) and pricer.obj is probe and pricer.fi.qualname.endswith(".price")
             ok = ok and set(kwf) == set(names) and all(kwf[n] == kw[n] for n in names)
@@ -221,7 +220,7 @@ def check(ctx, run):
         bad = []
         for r2 in resm:
             for e in r2["events"]:
-                if e["kind"] == "call" and e["callee"].endswith("find_implied_volatility") and e["fn"].endswith(".implied_volatility"):
+                if e["kind"] == "call" and e["callee"].endswith("find_implied_volatility"):
                     for k_, v_ in e["kwargs"].items():
                         if k_ in ("price", "precision", "pricer") or v_ is None or k_ not in used:
                             continue
